@@ -127,7 +127,9 @@ class LTLExplainer(LtlAstVisitor):
         op_intervals = explain_rise(op_signal, intervals)
         self.explanations[element.name] = intervals
 
+        # the operand occurs with both polarities (at t and at t-1)
         self.visit(element.children[0], [op_intervals, flag])
+        self.visit(element.children[0], [op_intervals, not flag])
 
     def visitFall(self, element, args):
         intervals = args[0]
@@ -136,7 +138,9 @@ class LTLExplainer(LtlAstVisitor):
         op_intervals = explain_fall(op_signal, intervals)
         self.explanations[element.name] = intervals
 
+        # the operand occurs with both polarities (at t and at t-1)
         self.visit(element.children[0], [op_intervals, flag])
+        self.visit(element.children[0], [op_intervals, not flag])
 
     def visitNot(self, element, args):
         intervals = args[0]
@@ -204,8 +208,10 @@ class LTLExplainer(LtlAstVisitor):
             op1_intervals, op2_intervals = explain_unsat_iff(op1_signal, op2_signal, intervals)
         self.explanations[element.name] = intervals
 
-        self.visit(element.children[0], [op1_intervals, flag])
-        self.visit(element.children[1], [op2_intervals, flag])
+        # both operands matter with both polarities
+        for polarity in (flag, not flag):
+            self.visit(element.children[0], [op1_intervals, polarity])
+            self.visit(element.children[1], [op2_intervals, polarity])
 
     def visitXor(self, element, args):
         intervals = args[0]
@@ -218,8 +224,10 @@ class LTLExplainer(LtlAstVisitor):
             op1_intervals, op2_intervals = explain_unsat_xor(op1_signal, op2_signal, intervals)
         self.explanations[element.name] = intervals
 
-        self.visit(element.children[0], [op1_intervals, flag])
-        self.visit(element.children[1], [op2_intervals, flag])
+        # both operands matter with both polarities
+        for polarity in (flag, not flag):
+            self.visit(element.children[0], [op1_intervals, polarity])
+            self.visit(element.children[1], [op2_intervals, polarity])
 
     def visitEventually(self, element, args):
         intervals = args[0]
